@@ -126,6 +126,9 @@ def run(ctx, rep):
             rep.violation('C05.6', 'C05.6:%s' % fn, where,
                           '%s: %s: the clusters between two pieces hold synced data of other guest clusters and are zeroed and '
                           'overwritten by the write that received the run' % (fn, detail))
+    # C05.7: an Ok flush_meta means the writes it stands for are done - a second flusher must not return while the first one,
+    # which already cleared the flags, still has them in flight
+    c04.flusher_serialisation(f, rep, 'C05.7')
     impls = [im for im in f.impls if im.get('trait') == 'ops::Qcow2IoOps']
     rep.floor('Qcow2IoOps implementations', len(impls), 3)
     for im in impls:
